@@ -1,2 +1,4 @@
+import JinnsModel.FieldOps
 import JinnsModel.HoldsC09
 import JinnsModel.Minibatch
+import JinnsModel.Poly
